@@ -339,4 +339,56 @@ pub fn vx_iter_any<I: Iterator, F: FnMut(I::Item) -> bool>(it: I, f: F) -> (r: b
         it.obeys_prophetic_iter_laws() && !r ==> forall|k: int| 0 <= k < it.remaining().len() ==> call_ensures(f, (#[trigger] it.remaining()[k],), false),
 { let mut it = it; it.any(f) }
 
+// ---- str::find(char) and slicing at the byte offset it returns ----
+// first char index holding c
+pub open spec fn first_index_of(s: Seq<char>, c: char) -> Option<int> {
+    if s.contains(c) { Option::Some(choose|k: int| 0 <= k < s.len() && s[k] == c && (forall|j: int| 0 <= j < k ==> s[j] != c)) } else { Option::None }
+}
+pub proof fn lemma_exists_first(s: Seq<char>, c: char, n: int)
+    requires 0 <= n < s.len(), s[n] == c
+    ensures exists|k: int| 0 <= k <= n && s[k] == c && (forall|j: int| 0 <= j < k ==> s[j] != c)
+    decreases n
+{
+    if exists|m: int| 0 <= m < n && s[m] == c {
+        let m = choose|m: int| 0 <= m < n && s[m] == c;
+        lemma_exists_first(s, c, m);
+    }
+}
+pub broadcast proof fn lemma_first_index(s: Seq<char>, c: char)
+    requires s.contains(c)
+    ensures ({ let k = (#[trigger] first_index_of(s, c))->0; 0 <= k < s.len() && s[k] == c && (forall|j: int| 0 <= j < k ==> s[j] != c) })
+{
+    let n = choose|n: int| 0 <= n < s.len() && s[n] == c;
+    lemma_exists_first(s, c, n);
+}
+pub assume_specification<P: core::str::pattern::Pattern>[ str::find::<P> ](s: &str, p: P) -> (r: Option<usize>)
+    ensures pat_char_of(p) is Some ==> (match r {
+        Option::Some(i) => s@.contains(pat_char_of(p)->0) && i == char_offset(s@, first_index_of(s@, pat_char_of(p)->0)->0),
+        Option::None => !s@.contains(pat_char_of(p)->0),
+    });
+// `x[..n]` with n the byte offset of the k-th char is defined and is the first k chars
+pub broadcast axiom fn axiom_str_index_to_offset(s: &str, r: core::ops::RangeTo<usize>, k: int)
+    requires 0 <= k < s@.len(), r.end == #[trigger] char_offset(s@, k)
+    ensures #[trigger] idx_req::<str, core::ops::RangeTo<usize>>(s, r);
+pub broadcast axiom fn axiom_str_index_to_offset_val(s: &str, r: core::ops::RangeTo<usize>, out: &str, k: int)
+    requires 0 <= k < s@.len(), r.end == #[trigger] char_offset(s@, k), #[trigger] idx_ens::<str, core::ops::RangeTo<usize>>(s, r, out)
+    ensures out@ == s@.take(k);
+pub broadcast axiom fn axiom_string_index_to_offset(s: &String, r: core::ops::RangeTo<usize>, k: int)
+    requires 0 <= k < s@.len(), r.end == #[trigger] char_offset(s@, k)
+    ensures #[trigger] idx_req::<String, core::ops::RangeTo<usize>>(s, r);
+pub broadcast axiom fn axiom_string_index_to_offset_val(s: &String, r: core::ops::RangeTo<usize>, out: &str, k: int)
+    requires 0 <= k < s@.len(), r.end == #[trigger] char_offset(s@, k), #[trigger] idx_ens::<String, core::ops::RangeTo<usize>>(s, r, out)
+    ensures out@ == s@.take(k);
+pub broadcast group group_str_slice_offset {
+    axiom_str_index_to_offset, axiom_str_index_to_offset_val, axiom_string_index_to_offset, axiom_string_index_to_offset_val,
+}
+
+// str::split_once(&str): the text before and after the FIRST occurrence of the pattern
+pub open spec fn contains_str(s: Seq<char>, p: Seq<char>) -> bool { exists|i: int| 0 <= i <= s.len() - p.len() && #[trigger] s.subrange(i, i + p.len()) == p }
+pub assume_specification<'a, P: core::str::pattern::Pattern>[ str::split_once::<P> ](s: &'a str, delimiter: P) -> (r: Option<(&'a str, &'a str)>)
+    ensures pat_str_of(delimiter) is Some ==> (match r {
+        Option::Some((a, b)) => s@ == a@ + pat_str_of(delimiter)->0 + b@ && !contains_str(a@ + pat_str_of(delimiter)->0.drop_last(), pat_str_of(delimiter)->0),
+        Option::None => !contains_str(s@, pat_str_of(delimiter)->0),
+    });
+
 } // verus!
